@@ -2,7 +2,7 @@
    bool/option/unit/prod/list/sumbool/comparison map to OCaml's own types; N, Z, positive, nat stay
    the extracted inductives.  No Extract Constant. *)
 From Coq Require Import NArith ZArith List Extraction ExtrOcamlBasic.
-From Rawr Require Import Consts Bits Magic Position MoveGen MakeMove Fen Eval TT Search.
+From Rawr Require Import Consts Bits Magic Position MoveGen MakeMove Fen Eval TT Search Rules Abs.
 
 Extraction Language OCaml.
 Extraction "model.ml"
@@ -18,4 +18,6 @@ Extraction "model.ml"
   eval eval_us
   tt_new tt_poll tt_add tt_hashfull tt_resize tt_clear t_len slot
   qsearch negamax root stop_of stats0
+  abs_state board_of spec_legal spec_attacked dec enc apply pass_turn legal captures checkmate stalemate leaves in_check_of
+  valid_b ep_retro material in_D consistent
   N.of_nat N.to_nat Z.of_N Z.to_N Z.of_nat.
